@@ -18,8 +18,10 @@ use std::sync::Mutex;
 use webgraph::graphs::arc_list_graph::ArcListGraph;
 use webgraph::graphs::union_graph::UnionGraph;
 use webgraph::graphs::vec_graph::LabeledVecGraph;
+use webgraph::graphs::btree_graph::LabeledBTreeGraph;
+use webgraph::graphs::csr_graph::CompressedCsrGraph;
 use webgraph::prelude::*;
-use webgraph::traits::graph::UnitLabelGraph;
+use webgraph::traits::graph::{UnitLabelGraph, UnitLabelParLenders};
 
 type Part = Vec<(usize, Vec<usize>)>;
 
@@ -284,6 +286,18 @@ pub fn run(seed: u64, count: usize, maxn: usize, mode: &str, out: &mut impl Writ
         exercise(&mut cx, &mut rng, &ops!(left0, ipl), "Left<LabeledVecGraph>", &format!("shape=lra0.left g0={s0} l0={sl}"), reps);
         let right0 = Right(lv0.clone());
         exercise(&mut cx, &mut rng, &ops!(right0, ipl), "Right<LabeledVecGraph>", &format!("shape=lra0.right g0={s0} l0={sl}"), reps);
+        let mut lb0 = LabeledBTreeGraph::<usize>::empty(n0);
+        for (x, l) in g0.iter().enumerate() { for (j, &y) in l.iter().enumerate() { lb0.add_arc(x, y, lab0[x][j]); } }
+        let leftb0 = Left(lb0.clone());
+        exercise(&mut cx, &mut rng, &ops!(leftb0, ipl), "Left<LabeledBTreeGraph>", &format!("shape=lra0.left g0={s0} l0={sl}"), reps);
+        let rightb0 = Right(lb0);
+        exercise(&mut cx, &mut rng, &ops!(rightb0, ipl), "Right<LabeledBTreeGraph>", &format!("shape=lra0.right g0={s0} l0={sl}"), reps);
+        if n0 >= 1 {
+            match CompressedCsrGraph::try_from_graph(&v0) {
+                Ok(cc0) => exercise(&mut cx, &mut rng, &ops!(cc0, ipl), "CompressedCsrGraph", &format!("shape=csr0 g0={s0}"), reps),
+                Err(e) => { writeln!(cx.out, "split id=s{} impl=CompressedCsrGraph shape=csr0 g0={s0} op=setup n={n0} status=err:{}", cx.id, sanitize(&format!("{e:#}"))).unwrap(); cx.id += 1; }
+            }
+        }
         let lu0 = Left(UnitLabelGraph(v0.clone()));
         exercise(&mut cx, &mut rng, &ops!(lu0, ipl), "Left<UnitLabelGraph<VecGraph>>", &format!("shape=ra0.unit.left g0={s0}"), reps);
 
@@ -437,6 +451,20 @@ fn par_graph_cases<W: Write>(cx: &mut Ctx<W>, rng: &mut Rng, g0: &Graph, g1: &Gr
         }));
         let scan: Part = collect_lender!(vh.iter());
         emit(cx, "ParGraph::with_dcf<VecGraph>", &format!("shape=ra0.par g0={sh}"), "ipl_dcf", format!("k={k}"), n0, &scan, res);
+    }
+    // UnitLabelParLenders: forwards into_par_lenders and relabels
+    {
+        let (t, pool) = &cx.pools[rng.below(cx.pools.len())];
+        let res = catch(AssertUnwindSafe(|| {
+            let (ls, bs) = pool.install(|| UnitLabelParLenders(&v0).into_par_lenders());
+            (ls.into_vec().into_iter().map(|mut l| {
+                let mut v: Part = Vec::new();
+                while let Some((x, s)) = l.next() { v.push((x, s.into_iter().map(|(y, ())| y).collect())); }
+                v
+            }).collect::<Vec<Part>>(), bs.into_vec())
+        }));
+        let scan: Part = collect_lender!(v0.iter());
+        emit(cx, "UnitLabelParLenders<VecGraph>", &format!("shape=ra0 g0={s0}"), "ipl", format!("k={t}"), n0, &scan, res);
     }
     // ParSortedGraph: boundaries decided by the sort
     {
